@@ -70,6 +70,8 @@ def build_call(ex, env, rng, plan, vec_len=None):
         if isinstance(v, (list, tuple)):
             out = [walk(x, d, param) for x in v]
             return tuple(out) if isinstance(v, tuple) else out
+        if isinstance(v, sympy.Pow) and v.base in plan:      # expression-valued parameter  b ** unknown
+            return sympy.sympify(leaf(v.base, d)) ** v.exp
         return leaf(v, d)
 
     kwargs = {}
@@ -96,10 +98,10 @@ def nice_value(sym, plan, rng):
 # judging one call
 # ---------------------------------------------------------------------------------------------
 
-def _num(x):
+def _num(x, prec=30):
     """sympy/python number -> float | complex | +-inf | nan"""
     try:
-        v = sympy.N(sympy.sympify(x), 30)
+        v = sympy.N(sympy.sympify(x), prec)
     except Exception:  # pylint: disable=broad-except
         return float("nan")
     if v in (sympy.oo, sympy.S.Infinity):
@@ -196,7 +198,13 @@ def direct_law_value(ex, b, env):
     from symplyphysics import convert_to_si  # pylint: disable=import-outside-toplevel
     for q in e.atoms(SymQuantity):
         e = e.xreplace({q: sympy.nsimplify(convert_to_si(q))})
-    return _num(e)
+    v30, v60 = _num(e), _num(e, 60)
+    try:
+        if not (isinstance(v30, float) and math.isinf(v30)) and abs(complex(v30) - complex(v60)) > 1e-9 * abs(complex(v60)):
+            return None          # the law's own value is not numerically reliable at this point (cancellation)
+    except Exception:  # pylint: disable=broad-except
+        return None
+    return v60
 
 
 def judge(item, ex, specs, kwargs, env, pick_branch):
@@ -243,10 +251,10 @@ def judge(item, ex, specs, kwargs, env, pick_branch):
             lawv = direct_law_value(ex, b, env)
         except Exception:  # pylint: disable=broad-except
             lawv = None
-    if lawv is not None and not (isinstance(lawv, float) and math.isnan(lawv)):
+    if lawv is not None and not (isinstance(lawv, float) and math.isnan(lawv)) and not isinstance(lawv, complex):
         rec["law_value"] = lawv
         exc = next((s.exception for s in specs if s.branch == bi), "")
-        if not exc and not _same(got, lawv):
+        if not exc and not _same(got, lawv) and not (rec["status"] == "ok" and _same(want, lawv, 1e-7)):
             rec["status"] = "law-fail"
     else:
         fenv = {k: (float(v) if sympy.sympify(v).is_Rational and not sympy.sympify(v).is_Integer else v) for k, v in env.items()}
@@ -260,6 +268,17 @@ def judge(item, ex, specs, kwargs, env, pick_branch):
             except Exception:  # pylint: disable=broad-except
                 continue
             rec["residual"] = v
+            if v[0] == "fail" and rec["status"] == "ok" and not isinstance(got, (list, tuple)):
+                # the float the function returned agrees with its closed form; does the closed form's exact value satisfy
+                # the law?  then the residual is round-off amplified by the law, not a wrong value
+                try:
+                    rep = {s_: sympy.sympify(x) for s_, x in env.items()}
+                    wex = sympy.N(sympy.sympify(b.result).xreplace(rep), 40)
+                    if wex.is_number and L.spec_predicate(sp, env, wex)[0] == "ok":
+                        rec["residual"] = ("ok", "residual of the real float is round-off: the exact closed-form value satisfies the law")
+                        continue
+                except Exception:  # pylint: disable=broad-except
+                    pass
             if v[0] == "fail":
                 rec["status"] = "law-fail"
         del fenv
@@ -478,4 +497,241 @@ def long_sequence_stream(item, build_lemmas, rng, pick_branch, lengths=SEQ_LENGT
             recs.append(r)
     finally:
         X.SEQ_LEN = old
+    return recs
+
+
+# ---------------------------------------------------------------------------------------------
+# round 3: aliasing, orderings / angles outside the first period, chosen values of the raw solution
+# ---------------------------------------------------------------------------------------------
+
+def build_call_aliased(ex, env, rng, plan, group):
+    """Like build_call, but every leaf symbol of `group` is represented by ONE shared object (the same Quantity, or the
+    same QuantityVector when the group is a set of vector stand-ins): callers that key on object identity collapse them."""
+    from symplyphysics import Quantity  # pylint: disable=import-outside-toplevel
+    from symplyphysics.core.vectors.vectors import QuantityVector  # pylint: disable=import-outside-toplevel
+    shared = {}
+    desc = {}
+    gids = {id(g) for g in group}
+
+    def leaf(s, d):
+        key = "scalar" if s in group else None
+        if key and key in shared:
+            d.append("same-object")
+            return shared[key]
+        one, dd = build_call_leaf(s, env, rng, plan)
+        d += dd
+        if key:
+            shared[key] = one
+        return one
+
+    def walk(v, d):
+        if isinstance(v, X.SVec):
+            if id(v) in gids:
+                if "vec" not in shared:
+                    shared["vec"] = QuantityVector([(lambda o: o if isinstance(o, SymQuantity) else Quantity(o))(leaf(s, d)) for s in v.components])
+                else:
+                    d.append("same-vector-object")
+                return shared["vec"]
+            return QuantityVector([(lambda o: o if isinstance(o, SymQuantity) else Quantity(o))(leaf(s, d)) for s in v.components])
+        if isinstance(v, (list, tuple)):
+            out = [walk(x, d) for x in v]
+            return tuple(out) if isinstance(v, tuple) else out
+        if isinstance(v, sympy.Pow) and v.base in plan:
+            return sympy.sympify(leaf(v.base, d)) ** v.exp
+        return leaf(v, d)
+
+    kwargs = {}
+    for a in ex.args:
+        d: list = []
+        kwargs[a.param] = walk(a.value, d)
+        desc[a.param] = d
+    return kwargs, desc
+
+
+def build_call_leaf(s, env, rng, plan):
+    class _One:      # a one-argument extraction-like shell so that build_call's leaf logic is reused
+        args = []
+    from .c02_extract import Arg  # pylint: disable=import-outside-toplevel
+    shell = _One()
+    shell.args = [Arg("p", "scalar", [s], s)]
+    kw, d = build_call(shell, env, rng, plan)
+    return kw["p"], d["p"]
+
+
+def alias_groups(ex, plan, limit=4):
+    """Groups of stand-ins that may be passed as one object: elements of one sequence parameter; scalar parameters of the
+    same declared dimension; vector parameters (or vector elements of a sequence) of the same dimension."""
+    groups = []
+    scal = {}
+    vecs = {}
+
+    def visit(v, param, in_seq):
+        if isinstance(v, X.SVec):
+            vecs.setdefault(str(v.dimension), []).append(v)
+        elif isinstance(v, (list, tuple)):
+            elems = [x for x in v if isinstance(x, sympy.Symbol)]
+            if len(elems) >= 2 and len({(str(plan[x][0]), plan[x][1]) for x in elems}) == 1 and plan[elems[0]][1] != "int":
+                groups.append(("elements of " + param, elems))
+            for x in v:
+                if not isinstance(x, sympy.Symbol):
+                    visit(x, param, True)
+        elif isinstance(v, sympy.Symbol) and not in_seq:
+            dim, how, _g = plan[v]
+            if how in ("quantity", "either") and dim is not None:
+                scal.setdefault(str(dim), []).append(v)
+    for a in ex.args:
+        visit(a.value, a.param, False)
+    for dim, ss in sorted(scal.items()):
+        if len(ss) >= 2:
+            groups.append((f"scalar parameters of dimension {dim}", ss))
+    for dim, vs in sorted(vecs.items()):
+        if len(vs) >= 2:
+            groups.append((f"vector parameters of dimension {dim}", vs))
+    return groups[:limit]
+
+
+def aliasing_stream(item, ex, specs, plan, rng, pick_branch, limit=4):
+    recs = []
+    syms = sorted({s for a in ex.args for s in a.syms}, key=str)
+    for label, group in alias_groups(ex, plan, limit):
+        env = {s: nice_value(s, plan, rng) for s in syms}
+        if isinstance(group[0], X.SVec):
+            for v in group[1:]:
+                for s0, s in zip(group[0].components, v.components):
+                    env[s] = env[s0]
+        else:
+            for s in group[1:]:
+                env[s] = env[group[0]]
+        try:
+            kwargs, desc = build_call_aliased(ex, env, rng, plan, group)
+        except Exception as e:  # pylint: disable=broad-except
+            recs.append({"stream": "aliasing", "status": "skipped", "why": f"call not constructible: {type(e).__name__}: {e}"[:160]})
+            continue
+        r = judge(item, ex, specs, kwargs, env, pick_branch)
+        r.update(stream="aliasing", aliased=label, units=desc)
+        recs.append(r)
+    return recs
+
+
+def ordering_stream(item, ex, specs, plan, rng, pick_branch, limit=3):
+    """Same-dimension scalar arguments in both orders (a < b, a > b; a == b is the aliasing stream) and angles outside
+    the first period / negative (-30 deg, 200 deg, 2 pi + 0.4)."""
+    recs = []
+    syms = sorted({s for a in ex.args for s in a.syms}, key=str)
+    scal = {}
+    for s in syms:
+        dim, how, _g = plan[s]
+        if how in ("quantity", "either", "number") and not s.is_integer:
+            scal.setdefault(str(dim), []).append(s)
+    cases = []
+    for _dim, ss in sorted(scal.items()):
+        for i in range(len(ss) - 1):
+            cases.append(("order", ss[i], ss[i + 1]))
+    cases = cases[:limit]
+    for s in syms:
+        if N._is_angle(plan[s][0]):  # pylint: disable=protected-access
+            angles = [(-sympy.pi / 6, "-30 deg"), (sympy.pi * 10 / 9, "200 deg"), (2 * sympy.pi + sympy.Rational(2, 5), "2 pi + 0.4")]
+            if limit < 3:
+                angles = [angles[rng.randrange(3)], angles[1]] if limit == 2 else [angles[1]]
+            for val, lab in dict.fromkeys(angles):
+                if not ((s.is_positive or s.is_nonnegative) and val.is_negative):
+                    cases.append(("angle", s, (val, lab)))
+    for kind, a, b in cases[: limit + 6]:
+        variants = []
+        if kind == "order":
+            base = nice_value(a, plan, rng)
+            variants = [({a: base, b: base * sympy.Rational(5, 2)}, f"{a} < {b}"), ({a: base * sympy.Rational(5, 2), b: base}, f"{a} > {b}")]
+            if base < 0:
+                variants = [({a: base * sympy.Rational(5, 2), b: base}, f"{a} < {b}"), ({a: base, b: base * sympy.Rational(5, 2)}, f"{a} > {b}")]
+        else:
+            variants = [({a: b[0]}, f"{a} = {b[1]}")]
+        for fix, label in variants:
+            env = {s: nice_value(s, plan, rng) for s in syms}
+            env.update(fix)
+            try:
+                kwargs, desc = build_call(ex, env, rng, plan)
+            except Exception as e:  # pylint: disable=broad-except
+                recs.append({"stream": "ordering", "status": "skipped", "why": f"{type(e).__name__}: {e}"[:160]})
+                continue
+            r = judge(item, ex, specs, kwargs, env, pick_branch)
+            r.update(stream="ordering", case=label, units=desc)
+            recs.append(r)
+    return recs
+
+
+class _Limit(BaseException):
+    pass
+
+
+def limited(seconds, fn, default):
+    """fn() under a nested alarm (the enclosing budget of the driver is restored afterwards)."""
+    import signal  # pylint: disable=import-outside-toplevel
+    import time  # pylint: disable=import-outside-toplevel
+    old_handler = signal.getsignal(signal.SIGALRM)
+
+    def h(*_a):
+        raise _Limit()
+    t0 = time.time()
+    remaining = signal.alarm(0)
+    signal.signal(signal.SIGALRM, h)
+    signal.alarm(seconds)
+    try:
+        return fn()
+    except _Limit:
+        return default
+    except Exception:  # pylint: disable=broad-except
+        return default
+    finally:
+        signal.alarm(0)
+        signal.signal(signal.SIGALRM, old_handler)
+        if remaining:
+            signal.alarm(max(1, int(remaining - (time.time() - t0))))
+
+
+TARGETS = (sympy.Rational(-5, 2), sympy.Integer(-1), sympy.Integer(0), sympy.Integer(3), sympy.Rational(5, 2), sympy.Integer(1000))
+
+
+def target_value_stream(item, ex, specs, plan, rng, pick_branch):
+    """Functions that post-process the solved law (ceiling / int / abs / max / min): one argument is solved so that the RAW
+    solution takes chosen values -- negative, zero, an exact integer, a half-integer, large."""
+    recs = []
+    raw = None
+    for sp in specs:
+        if sp.exception in ("ceiling", "abs", "trunc") and isinstance(sp.F, sympy.Basic):
+            raw = sp.F
+            break
+    if raw is None:
+        return recs
+    syms = sorted({s for a in ex.args for s in a.syms}, key=str)
+    cands = [s for s in sorted(raw.free_symbols & set(syms), key=str) if plan[s][1] != "int" and not s.is_integer]
+    for T in TARGETS:
+        done = False
+        for target in cands:
+            if done:
+                break
+            env = {s: nice_value(s, plan, rng) for s in syms if s != target}
+            sols = limited(4, lambda: sympy.solve(sympy.Eq(raw.xreplace(env), T), target), [])
+            for sol in sols:
+                if sol.free_symbols or not sol.is_real or sol.has(sympy.I) or sol == 0:
+                    continue
+                if (target.is_positive or target.is_nonnegative) and sol.is_negative:
+                    continue
+                e = dict(env)
+                e[target] = sol
+                try:
+                    kwargs, desc = build_call(ex, e, rng, plan)
+                except Exception:  # pylint: disable=broad-except
+                    continue
+                r = judge(item, ex, specs, kwargs, e, pick_branch)
+                r.update(stream="target-value", raw_solution=str(T), solved_for=str(target), units=desc)
+                if T.is_Integer and r["status"] in ("mismatch", "law-fail"):
+                    try:      # exact integers: float round-off of the real function may fall on either side of ceil/int
+                        g, w = r.get("observed"), r.get("closed_form_value")
+                        if isinstance(g, float) and isinstance(w, float) and abs(g - w) <= 1 + 1e-9 and T != 0:
+                            r["status"], r["why"] = "skipped", "exact-integer solution: round-off decides the side of the rounding"
+                    except Exception:  # pylint: disable=broad-except
+                        pass
+                recs.append(r)
+                done = True
+                break
     return recs
